@@ -162,6 +162,41 @@ def job(args):
         if solver_kind == 'external' and len(samples) < 1:
             P = cells[0]
             samples.append(dict(rule='S2', cls=cls, row=F.cstr(P), solver_row={str(k): fmt_rat(v, 6) for k, v in _rowsum(w, [(ONE, Ms)], P).items()}))
+    # ---- S2 for other orders of the term list (thorough tier): "any list of terms in any order, sign and scaling"
+    if tier != 'quick':
+        import ast as _ast
+        import itertools as _it
+        names = ['M1', 'R1', 'PAIR', 'negM1', '3R2', 'M2']
+        orders = [names[::-1], ['PAIR', 'M1', 'M2', 'R1', '3R2', 'negM1'], ['R1', '3R2', 'PAIR', 'M1', 'negM1', 'M2'],
+                  ['negM1', 'PAIR', 'R1', 'M2', 'M1', '3R2'], ['M2', 'M1', 'negM1', 'PAIR', 'PAIR', 'R1']]
+        for order in orders:
+            w, phi, T, rec = make_solve_world(sm, cls)
+            cells, ghosts = _cells(w, tier)
+            item = {'M1': T['M1'], 'R1': T['R1'], 'PAIR': (T['M2'], T['R2']), 'negM1': w.interp.neg(T['M1']),
+                    '3R2': w.interp.binop(_ast.Mult(), Rat.const(3), T['R2']), 'M2': T['M2']}
+            cM = {'M1': [(ONE, T['M1'])], 'PAIR': [(ONE, T['M2'])], 'negM1': [(Rat.const(-1), T['M1'])], 'M2': [(ONE, T['M2'])]}
+            cR = {'R1': [(ONE, T['R1'])], 'PAIR': [(ONE, T['R2'])], '3R2': [(Rat.const(3), T['R2'])]}
+            exp_M = [(ONE, w.Mbc)] + [x for n in order for x in cM.get(n, [])]
+            exp_R = [(ONE, w.Rbc)] + [x for n in order for x in cR.get(n, [])]
+            construct = 'pdesolver.solvePDE/term-order=' + ','.join(order)
+            try:
+                w.call('pdesolver', 'solvePDE', phi, [item[n] for n in order], w.ext)
+            except AbstractRaise as e:
+                ob('S2', construct, False, f"raises {e.exc}: {e.msg}")
+                continue
+            if len(rec) != 1 or len(rec[0][1]) != 2 or not isinstance(rec[0][1][0], ASparse):
+                ob('S2', construct, False, f"solver calls recorded: {[(r[0], len(r[1])) for r in rec]}")
+                continue
+            Ms, Rs = rec[0][1]
+            for P in cells[:3] + ghosts[:2]:
+                got = _rowsum(w, [(ONE, Ms)], P)
+                exp = _rowsum(w, exp_M, P)
+                okm = set(got) == set(exp) and all(is_zero(got[k] - exp[k]) for k in got)
+                gr = w.vector_at(Rs, P)
+                er = ZERO
+                for c, V in exp_R:
+                    er = er + c * w.vector_at(V, P)
+                ob('S2', construct, okm and is_zero(gr - er), f"row {F.cstr(P)}: matrix {'ok' if okm else 'differs'}, RHS solver {fmt_rat(gr, 5)} vs assembled {fmt_rat(er, 5)}")
     # ---- S5
     fm = sm.func('pdesolver', 'solveMatrixPDE')
     w, phi, T, rec = make_solve_world(sm, cls)
